@@ -23,9 +23,11 @@ def run(ctx, facts):
     ctx.rule("A2", "the value passed to the closure is loaded from Node.value inside the same region", floor=2)
     ctx.rule("A3", "the write applying the closure's result is in the same region (no unlock in between); Some and None arms both handled", floor=2)
     ctx.rule("A4", "the remapping function runs at most once per call (FnOnce bound, or no second call reachable)", floor=2)
-    ctx.rule("A5", "compute_if_present: lock -> re-validate -> act, with no link of the bin loaded before the lock carried into the section (rule L1 of C01)", floor=2)
+    ctx.rule("A5", "compute_if_present and every other writer of a bin: lock -> re-validate -> act, with no link of the bin loaded before the lock "
+                   "carried into the section (rule L1 of C01): a writer that replaces bin contents it read under an earlier critical section "
+                   "overwrites a compute that took effect in between", floor=11)
     from .rules_c01 import rule_l1
-    rule_l1(ctx, facts, rule="A5", only=("map::HashMap::compute_if_present",))
+    rule_l1(ctx, facts, rule="A5")
     cip = facts.body("map::HashMap::compute_if_present")
     fl = flow(cip)
     vs = [v for v in validated_regions(cip) if bin_lock_region(v.region)]
